@@ -361,3 +361,60 @@ func dtPkgTwoCols(f1, f2 refdata.Field, data1, data2 []byte) (got1, got2 interfa
 	})
 	return
 }
+
+// dtPkgRowThenNull: one RowPackage object decodes a row with a value and
+// then, again, a row whose column is NULL (zero length; for the text-pointer
+// family a zero-length text pointer). What the object holds afterwards is
+// returned: state of the first decode must not survive into the second.
+func dtPkgRowThenNull(f refdata.Field, data []byte, tp *refdata.TextPtr) (got interface{}, stage string, err error, pi *rt.PanicInfo) {
+	enc, e := refdata.RowFmt2([]refdata.Field{f})
+	if e != nil {
+		return nil, "harness", e, nil
+	}
+	fp, e, p := dtLibParseFmt(enc)
+	if e != nil || p != nil {
+		return nil, "parse-rowfmt", e, p
+	}
+	df, e := refdata.DataField(f, data, tp)
+	if e != nil {
+		return nil, "harness", e, nil
+	}
+	var null []byte
+	switch refdata.ClassOf(f.Type) {
+	case refdata.ClassLen1, refdata.ClassDecimal, refdata.ClassBigTime, refdata.ClassTextPtr:
+		null = []byte{0}
+	case refdata.ClassLen4:
+		null = []byte{0, 0, 0, 0}
+	default:
+		return nil, "harness", fmt.Errorf("no NULL for this class"), nil
+	}
+	stage = "read-rows"
+	pi = rt.Catch(func() {
+		var pkg tds.Package
+		pkg, err = tds.LookupPackage(tds.Token(refdata.TokRow))
+		if err != nil {
+			return
+		}
+		rp, ok := pkg.(*tds.RowPackage)
+		if !ok {
+			err = fmt.Errorf("LookupPackage(TDS_ROW) gave %T", pkg)
+			return
+		}
+		if err = rp.LastPkg(fp); err != nil {
+			return
+		}
+		for _, row := range [][]byte{refdata.Row(df), refdata.Row(null)} {
+			ch := &dtFlatCh{buf: row, pos: 1}
+			if err = rp.ReadFrom(ch); err != nil {
+				return
+			}
+			if ch.pos != len(row) || len(rp.DataFields) != 1 {
+				err = fmt.Errorf("ROW reader consumed %d of %d bytes, %d data fields", ch.pos, len(row), len(rp.DataFields))
+				return
+			}
+		}
+		got = rp.DataFields[0].Value()
+		stage = ""
+	})
+	return
+}
